@@ -332,6 +332,43 @@ def rule_rust(ctx):
         ctx.ok("R1", "satisfies_text_predicates:present", "QueryMatch::satisfies_text_predicates analysed (%d blocks)" % len(sat[0].blocks), nontrivial=False)
 
 
+def rule_definite(ctx, F):
+    """D1: next_capture hands out the captures of an unfinished match only when the match cannot fail any more.
+    ts_query_cursor__first_in_progress_capture reports `*is_definite` — in every case in which it is true the state's
+    next step is guaranteed by the grammar (root_pattern_guaranteed) *and* not anchored (the analysis ignores `.` anchors:
+    an anchored step can still fail on an intervening named node, e.g. a comment, and the capture would be in the capture
+    stream but in no match)."""
+    from flow import cond_cases
+    fn = ctx.need_fn(F, "ts_query_cursor__first_in_progress_capture", "D1")
+    if not fn:
+        return
+    sts = [(pt, n) for pt, e in fn.points() for n in own_walk(e) if n.get("k") == "assign" and n.get("op") == "=" and strip(n["l"]).get("k") == "un" and strip(n["l"]).get("op") == "*"
+           and strip(strip(n["l"])["e"]).get("k") == "ref" and strip(strip(n["l"])["e"]).get("name") == fn.cur("is_definite")]
+    if not sts:
+        ctx.bad("D1", "first_in_progress_capture:is_definite", "ts_query_cursor__first_in_progress_capture no longer stores *is_definite")
+        return
+    m = M(fn)
+    need = [("step->root_pattern_guaranteed", True, "the rest of the pattern is guaranteed"), ("step->is_immediate", False, "the next step is not anchored")]
+    for pt, n in sts:
+        r = strip(n["r"])
+        if r.get("k") == "int" and not r.get("v"):
+            continue
+        cases = cond_cases(n["r"], True)
+        for pat, want, what in need:
+            key = "first_in_progress_capture:definite-only-if:%s" % pat.split("->")[-1]
+            ok = bool(cases) and all(any(m.match(pat, ex) and tr == want for ex, tr in case) for case in cases)
+            if ok:
+                ctx.ok("D1", key, "*is_definite is true only when %s (`%s` is %s in every case of `%s`)" % (what, pat, want, show(n["r"])[:70]), sample={"site": fn.loc(pt)})
+            else:
+                ctx.bad("D1", key, "*is_definite = `%s` (%s) can be true although not (%s): next_capture then returns a capture of a match that can still fail, and the capture stream "
+                        "contains a triple that no match contains" % (show(n["r"])[:80], fn.loc(pt), what), {"site": fn.loc(pt)})
+    # the caller believes it: a definite in-progress capture is returned without waiting
+    g = ctx.need_fn(F, "ts_query_cursor_next_capture", "D1")
+    if g:
+        use = [pt for pt, c in g.calls() if callee_name(c) == "ts_query_cursor__first_in_progress_capture"]
+        ctx.floor("calls of first_in_progress_capture in next_capture", len(use), 1)
+
+
 # ------------------------------------------------------------------------------------------------
 # S1: arrays that are binary-searched are only ever filled in order
 # ------------------------------------------------------------------------------------------------
@@ -436,6 +473,7 @@ def run(ctx):
         rule_p4(ctx, F)
         rule_range(ctx, F)
         rule_sorted(ctx, F)
+        rule_definite(ctx, F)
     rule_rust(ctx)
     return ctx.finish(
         "Pairing and field-coverage rules over query.c: every discard of a query state under capture-list-pool exhaustion is preceded by "
